@@ -5,6 +5,7 @@
  * usage: h_one <cfgpath> <resultfile> [uid] [ncalls] [devlogpath|-] [message length -> env M] [fill char]
  * The executable contains snoopy's objects (production wrapper); librec.so is the real-exec seam. */
 #include <errno.h>
+#include <signal.h>
 #include <sys/resource.h>
 #include <fcntl.h>
 #include <stdio.h>
@@ -69,6 +70,7 @@ int connect(int fd, const struct sockaddr *addr, socklen_t len) {
     }
     return (int)syscall(SYS_connect, fd, addr, len);
 }
+static const char *pending_now(void) { static char b[256]; sigset_t s; sigpending(&s); b[0] = 0; for (int i = 1; i < 65; i++) if (sigismember(&s, i) == 1) { char t[8]; snprintf(t, sizeof t, "%d.", i); strcat(b, t); } return b; }
 int main(int argc, char **argv) {
     if (argc < 3) return 2;
     strncpy(verif_cfgpath, argv[1], 4095);
@@ -76,6 +78,10 @@ int main(int argc, char **argv) {
     if (argc > 6) { long ml = atol(argv[6]); char *m = malloc(ml + 1); memset(m, argc > 7 ? argv[7][0] : 'm', ml); m[ml] = 0; setenv("M", m, 1); free(m); }
     verif_rec_cb = cb;
     FILE *resf = fopen(argv[2], "w");   /* the result channel is opened before privileges are dropped */
+    /* the caller has these signals blocked and one instance of each pending (e.g. "13,25,22"): logging must neither deliver nor swallow them */
+    { const char *pg = getenv("VERIF_PENDING"); if (pg && *pg) { char *d = strdup(pg), *sv = NULL; sigset_t bs; sigemptyset(&bs);
+        for (char *t = strtok_r(d, ",", &sv); t; t = strtok_r(NULL, ",", &sv)) sigaddset(&bs, atoi(t));
+        sigprocmask(SIG_BLOCK, &bs, NULL); free(d); d = strdup(pg); for (char *t = strtok_r(d, ",", &sv); t; t = strtok_r(NULL, ",", &sv)) kill(getpid(), atoi(t)); free(d); } }
     if (getenv("VERIF_STDIN_PTY")) { int m = posix_openpt(O_RDWR | O_NOCTTY); grantpt(m); unlockpt(m); int sl = open(ptsname(m), O_RDWR | O_NOCTTY); dup2(sl, 0); close(sl); }
     /* sink states of the caller's own stdout / stderr: "gone:<fds>" = pipe whose reader has closed, "full:<fds>" = pipe that is
        full and that nobody reads, "nearly:<fds>" = the same with one page of room, "sockgone:<fds>" = stream socket whose peer has closed */
@@ -114,6 +120,6 @@ int main(int argc, char **argv) {
         fd_table(fds1, sizeof fds1); if (i < 8) fdleak[i] = strcmp(fds0, fds1) != 0;
         lastret = r; lasterr = e; if (r != -1 || e != ENOENT) ok = 0;
     }
-    FILE *f = resf; if (f) { fprintf(f, "{\"rec_calls\":%d,\"ret\":%d,\"errno\":%d,\"ok\":%d,\"heap_delta\":[%ld,%ld,%ld],\"fd_table_changed\":[%d,%d,%d],\"fds_after\":\"%s\"}\n", rec_calls, lastret, lasterr, ok && rec_calls == n, heapd[0], heapd[1], heapd[2], fdleak[0], fdleak[1], fdleak[2], fds1); fclose(f); }
+    FILE *f = resf; if (f) { fprintf(f, "{\"still_pending\":\"%s\",\"rec_calls\":%d,\"ret\":%d,\"errno\":%d,\"ok\":%d,\"heap_delta\":[%ld,%ld,%ld],\"fd_table_changed\":[%d,%d,%d],\"fds_after\":\"%s\"}\n", pending_now(), rec_calls, lastret, lasterr, ok && rec_calls == n, heapd[0], heapd[1], heapd[2], fdleak[0], fdleak[1], fdleak[2], fds1); fclose(f); }
     return 0;
 }
